@@ -352,6 +352,7 @@ pub enum ObjKind {
     Image,
     Form,
     ObjStm,
+    XRef,
     Stream,
     NameTree,
     NumTree,
@@ -359,7 +360,10 @@ pub enum ObjKind {
     Field,
     Annot,
     Resources,
+    /// a dictionary of no recognised type
     Other,
+    /// not a dictionary or stream (integer, array, name, ...)
+    Scalar,
     Unreadable,
 }
 
@@ -369,6 +373,11 @@ pub struct Inventory {
     pub n_pages: u32,
     pub objects: Vec<(u64, ObjKind)>,
     pub loadable: bool,
+    /// object numbers the trailer refers to directly (Root, Info, Encrypt, ...)
+    pub trailer_refs: Vec<u64>,
+    /// object numbers read while the document is opened (everything the typed load of the trailer
+    /// and catalog depends on); observed through the Log seam
+    pub structural: Vec<u64>,
 }
 
 fn classify(p: &Primitive) -> ObjKind {
@@ -378,6 +387,7 @@ fn classify(p: &Primitive) -> ObjKind {
             let d = &s.info;
             match (name_of(d, "Type").as_deref(), name_of(d, "Subtype").as_deref()) {
                 (Some("ObjStm"), _) => ObjKind::ObjStm,
+                (Some("XRef"), _) => ObjKind::XRef,
                 (_, Some("Image")) => ObjKind::Image,
                 (_, Some("Form")) => ObjKind::Form,
                 _ => ObjKind::Stream,
@@ -405,14 +415,32 @@ fn classify(p: &Primitive) -> ObjKind {
                 }
             }
         },
-        _ => ObjKind::Other,
+        _ => ObjKind::Scalar,
     }
+}
+
+fn trailer_refs(bytes: &[u8], password: &[u8]) -> Vec<u64> {
+    use pdf::file::{NoCache, NoLog, Storage};
+    let mut out = vec![];
+    if let Ok(mut st) = Storage::with_cache(bytes.to_vec(), ParseOptions::strict(), NoCache, NoCache, NoLog) {
+        if let Ok(tr) = st.load_storage_and_trailer_password(password) {
+            for (_, v) in tr.iter() {
+                if let Primitive::Reference(r) = v {
+                    out.push(r.id);
+                }
+            }
+        }
+    }
+    out
 }
 
 pub fn inventory(bytes: &[u8], password: &[u8]) -> Inventory {
     let ctl = SimCtl::new(false, false);
-    match open(bytes, &ctl, false, password) {
-        Err(_) => Inventory { size: 0, n_pages: 0, objects: vec![], loadable: false },
+    *ctl.touched.lock().unwrap() = Some(Default::default());
+    let opened = open(bytes, &ctl, false, password);
+    let structural: Vec<u64> = ctl.touched.lock().unwrap().take().map(|s| s.into_iter().collect()).unwrap_or_default();
+    match opened {
+        Err(_) => Inventory { size: 0, n_pages: 0, objects: vec![], loadable: false, trailer_refs: vec![], structural: vec![] },
         Ok(file) => {
             let size = file.trailer.size.max(0) as u64;
             let res = file.resolver();
@@ -424,7 +452,7 @@ pub fn inventory(bytes: &[u8], password: &[u8]) -> Inventory {
                 };
                 objects.push((id, kind));
             }
-            Inventory { size, n_pages: file.num_pages(), objects, loadable: true }
+            Inventory { size, n_pages: file.num_pages(), objects, loadable: true, trailer_refs: trailer_refs(bytes, password), structural }
         }
     }
 }
@@ -437,14 +465,14 @@ pub fn right_ops(id: u64, kind: ObjKind) -> Vec<Op> {
         ObjKind::Image => v.extend([Op::Get(Ty::XObject, id), Op::StreamData(id), Op::RawImage(id), Op::ImageData(id), Op::Get(Ty::Stream, id)]),
         ObjKind::Form => v.extend([Op::Get(Ty::XObject, id), Op::StreamData(id), Op::Get(Ty::Stream, id)]),
         ObjKind::ObjStm => v.extend([Op::Get(Ty::ObjStm, id), Op::StreamData(id), Op::Get(Ty::Stream, id)]),
-        ObjKind::Stream => v.extend([Op::StreamData(id), Op::Get(Ty::Stream, id)]),
+        ObjKind::Stream | ObjKind::XRef => v.extend([Op::StreamData(id), Op::Get(Ty::Stream, id)]),
         ObjKind::NameTree => v.push(Op::Get(Ty::NameTree, id)),
         ObjKind::NumTree => v.push(Op::Get(Ty::NumTree, id)),
         ObjKind::Outline => v.push(Op::Get(Ty::Outline, id)),
         ObjKind::Field => v.push(Op::Get(Ty::Field, id)),
         ObjKind::Annot => v.push(Op::Get(Ty::Annot, id)),
         ObjKind::Resources => v.push(Op::Get(Ty::Resources, id)),
-        ObjKind::Other => v.push(Op::Get(Ty::Prim, id)),
+        ObjKind::Other | ObjKind::Scalar => v.push(Op::Get(Ty::Prim, id)),
         ObjKind::Unreadable => {}
     }
     v
